@@ -10,8 +10,10 @@ PID = "C15"
 RULE = (
     "cases = Hypothesis-generated IR modules (vf/genir.py, full menu: every instruction kind and operator incl. rol/ror, "
     "~, undef, literals, memcpy, volatile accesses, boundary/negative/huge constants, exponent-form and non-finite floats, "
-    "initialised globals incl. symbol references, blocks emitted in non-dominance order) and C front-end modules "
-    "(c_to_ir on translation units assembled from 25 fragments: structs, loops, switch, ternary, function pointers, floats, "
+    "initialised globals incl. symbol references, blocks emitted in non-dominance order; in 40% of the functions up to three "
+    "parameters / local values are renamed to the name of a global, external or function the function does not refer to, as C "
+    "shadowing produces) and C front-end modules "
+    "(c_to_ir on translation units assembled from 28 fragments: structs, loops, switch, ternary, function pointers, floats, "
     "bit-fields, statics, strings; optionally optimised at level 2), each with 1-2 generated argument vectors per function. "
     "Oracle: read_module(print_module(m)) succeeds, prints identically, has the same initial memory image, the same "
     "volatile flags, and gives the same observation under vf/irsem.observe_call on every defined call. "
@@ -52,6 +54,7 @@ FINDING_OF = {
     "fwd": "C15-KF8",
     "uscore": "C15-KF9",
     "asm": "C15-KF10",
+    "nameclash": "C15-KF11",
 }
 
 TRIVIAL = {"Binop:+", "Binop:-", "Binop:*", "Const:i32", "Jump", "CJump", "Return", "Exit"}
@@ -232,7 +235,21 @@ def classify(case, msg):
     for fid in sorted(set(FINDING_OF.values())):
         if _signature(fid, msg, txt, feats):
             return fid
+    if "nameclash" in feats and _passes_with_unique_local_names(case):
+        return "C15-KF11"
     return None
+
+
+def _passes_with_unique_local_names(case):
+    """Model of C15-KF11: the failure is caused by a function-local name that is ambiguous with a module-level name,
+    i.e. the very same module round-trips once those local values carry fresh names."""
+    try:
+        m, ptr_bits, calls = irround.build_case(case)
+        if not irround.uniquify_locals(m):
+            return False
+        return check_module(m, ptr_bits, calls)[0] is None
+    except Exception:
+        return False
 
 
 def active_exclusions():
